@@ -19,7 +19,8 @@ ID = 'C03'
 LEVEL = 'exploration'
 RULE = ('one case = one value (a code point as the 1-character string and embedded as a?b, a seeded '
         'random string over an alphabet dense in & < > " \' / ASCII / Latin-1 / BMP / astral, its bytes '
-        'encodings, or a non-string object) pushed through every insertion form x context; a case is '
+        'encodings, or a non-string object: str-like objects, str subclasses, containers, exceptions and marked '
+        '(TaintedString) strings) pushed through every insertion form x context; a case is '
         'non-trivial when the value\'s text is non-empty; distinct = distinct (value recipe, template '
         'encoding) pairs.  The code-point part is exhaustive over its stated range.')
 ASSUMPTIONS = [
@@ -166,6 +167,11 @@ def build_value(recipe):
         v = {text: text}
     elif kind == 'set':
         v = frozenset([text])
+    elif kind == 'tainted':
+        # a marked (untrusted) string: its string form is the text, and a quoting form must give exactly the
+        # escaping of that text - once - like for any other string-like value (the engine quotes marked values
+        # on its own at the end of the pipeline; together with a quoting option that must not add up or cancel)
+        v = TaintedString(text)
     elif kind == 'exc1':
         v = ValueError(text)
     elif kind == 'exc2':
@@ -175,7 +181,7 @@ def build_value(recipe):
     return v, str(v)
 
 
-OBJ_KINDS = ('strobj', 'strsub', 'list', 'tuple', 'dict', 'set', 'exc1', 'exc2')
+OBJ_KINDS = ('strobj', 'strsub', 'list', 'tuple', 'dict', 'set', 'exc1', 'exc2', 'tainted')
 
 
 def norm_enc(enc):
